@@ -8,6 +8,16 @@ CLAIMED = {
    note="Trusted: Lean kernel; axioms propext/Classical.choice/Quot.sound only (audited by #print axioms each run); hex and bitvec crates as specified; the differential harness and generators. Modelled, not verified: the Rust decoder itself (tied by the differential).",
    technique="Lean 4 proof (all inputs) + differential correspondence model vs real codec",
    design="§7 C16"),
+ "C01": dict(
+   text="Lean 4 theorems for EVERY Program over the kernel API, every scheduler (any state type) and all fuel (ShuttleProofs/C01.lean): replay_faithful — replaying the schedule an execution recorded, through the model of ReplayScheduler, yields the same seed, the same event log (offered lists, current, yielding flags, choices, draw values, observations), the same outcome (pass / same panic / same deadlock list / step bound), the same final user state and re-records the same schedule, under the explicit hypothesis DataFaithful (shown necessary by a counterexample and proved for the round-robin, random and DFS schedulers: builtin_data_faithful); replay_exhausts_schedule (none of the replay panics is reachable); replay_from_string(_ws) via the C16 round trip; nondet_check_never_rejects (the uncontrolled-nondeterminism checker never rejects a deterministic program; newExec consulted once per pair); record_exact (C08). Tie: step-exact trace-mode differential on 13 program profiles under random/PCT/round-robin/DFS; oracle, implementation vs implementation: ~1000 recorded executions per run — passing, panicking (also while holding locks), deadlocking, step-bound — are re-run through the real ReplayScheduler::new_from_encoded(serialize_schedule(recorded)) with the run's own config and must reproduce every decision, draw, result, clock, the outcome and the re-recorded schedule.",
+   note="Trusted: Lean kernel + standard axioms; programs in the model are deterministic by construction, so the theorems show recording/replay/checker are logically right — that the real runtime has no hidden nondeterminism is what the differential and the replay oracle check on the generated programs. shuttle::replay uses the default Config: the theorems and the oracle replay with the run's own step bound. URW scheduler: differential only. target_clock: partial theorem about next_task only.",
+   technique="Lean 4 proof (simulation) over all programs/schedulers + step-exact differential + impl-vs-impl replay oracle",
+   design="§7 C01"),
+ "C11": dict(
+   text="Lean 4 theorems about a line-by-line model of pct.rs for all states satisfying the invariant, all offered lists, all seeds (ShuttleProofs/C11.lean): pct_inv (distinct priorities, keys 0..len-1; shuffle proved to be a permutation), pct_runs_min_priority, pct_priority_changes_only (only insertion of new tasks by fresh slot/swap and demotion of the running task to a fresh lowest slot exactly when >1 task is offered and (step is a change point or yielding)), pct_demotes_only_current, pct_change_points and pct_at_most_d_minus_1_change_preemptions (under the explicit hypothesis SampleLoopsInRange on rand's rejection loop), pct_k_estimate, pct_iterations_exact, pct_no_concurrency_panics. Tie: prediction mode — model PCT + bit-exact Pcg64Mcg/rand 0.8.8 must reproduce every decision of the real PctScheduler from (seed, depth) alone (150 programs × 3–5 iterations per quick run; 151,919 decisions in the agent's validation); same-seed determinism impl-vs-impl; a sound log-only priority monitor. The probability bound 1/(n·k^(d-1)) is NOT formalised: it follows from the proved structure by the PCT paper's argument and is stated as such.",
+   note="Trusted: Lean kernel + standard axioms; hypothesis SampleLoopsInRange (arithmetic core proved); PRNG uniformity is an assumption; rand/rand_pcg re-stated bit-exactly and validated on 128k vectors + every compared decision.",
+   technique="Lean 4 proof over all scheduler states + prediction-mode differential against the real PctScheduler",
+   design="§7 C11"),
  "C09": dict(
    text="Lean 4 theorems over ALL finite, well-formed choice trees (ShuttleProofs/C09.lean: dfs_exhaustive — every path exactly once, in left-to-right order, then stop, with fuel shown not to be a loophole; dfs_no_duplicates; dfs_iteration_bound; dfs_step_bound; dfs_never_fails) about a line-by-line transcription of dfs.rs. Tie, every run: prediction mode (the model DFS scheduler driving the model kernel must reproduce every decision, draw, result and recorded schedule of the real check_dfs run) and set/order comparison of the real run's schedules with an independent explicit-stack enumerator of the model kernel's choice tree; oracles on the implementation's own logs for the iteration bound, the ContinueAfter bound and the fixed data stream.",
    note="Trusted: Lean kernel; axioms ⊆ {propext, Classical.choice, Quot.sound}; the kernel contract (non-empty, distinct offers: C08) links programs to trees; harness/generator unverified; trees above 3000 leaves are cut and excluded from set mode.",
